@@ -50,3 +50,15 @@ def search(prop, case=None, timeout=900):
     d["status"] = "fail" if d.get("failure") else "nofail"
     d["wall_s"] = round(time.time() - t0, 1)
     return d
+
+
+def fingerprint(prop, timeout=900):
+    """digest of everything the crate returns on the directed inputs (fixed seeds); None when it cannot be computed"""
+    exe, err = build()
+    if exe is None:
+        return None
+    try:
+        r = subprocess.run([exe, "fingerprint", prop], stdout=subprocess.PIPE, stderr=subprocess.PIPE, text=True, timeout=timeout)
+        return json.loads((r.stdout.strip().splitlines() or ["{}"])[-1]).get("fingerprint")
+    except Exception:
+        return None
